@@ -196,6 +196,10 @@ type GuardQuery struct {
 	NoInline map[string]bool
 	// MaxDynamic bounds the number of resolved targets of a dynamic call that are analysed (default 8).
 	MaxDynamic int
+	// OnlyPathsThrough (with ThroughSite): in Root, only blocks that lie on some control-flow path through
+	// the site are executed (blocks that can reach it or can be reached from it), so that values of
+	// alternative branches that never meet the site do not dilute the assumption at join points.
+	OnlyPathsThrough bool
 	// ThroughSite, if set, restricts the reported returns of Root to those
 	// reachable (over executable edges) from the block of this instruction.
 	ThroughSite ssa.Instruction
@@ -393,6 +397,36 @@ func (e *gEngine) analyse(f *ssa.Function, args []lat, depth int) *fnAnalysis {
 	type edge struct{ from, to int }
 	execEdge := map[edge]bool{}
 	execBlock := make([]bool, len(f.Blocks))
+	// an edge a→b lies on a path through the site iff b still heads for the site (b can reach it) or a is
+	// already past it (a is reachable from it); an edge from "before" directly to "after" bypasses the site
+	var canReach, fromSite map[int]bool
+	if e.q.OnlyPathsThrough && e.q.ThroughSite != nil && f == e.q.Root && depth == 0 && e.q.ThroughSite.Block() != nil {
+		sb := e.q.ThroughSite.Block()
+		fromSite = map[int]bool{sb.Index: true}
+		stack := []*ssa.BasicBlock{sb}
+		for len(stack) > 0 {
+			b := stack[len(stack)-1]
+			stack = stack[:len(stack)-1]
+			for _, x := range b.Succs {
+				if !fromSite[x.Index] {
+					fromSite[x.Index] = true
+					stack = append(stack, x)
+				}
+			}
+		}
+		canReach = map[int]bool{sb.Index: true}
+		stack = []*ssa.BasicBlock{sb}
+		for len(stack) > 0 {
+			b := stack[len(stack)-1]
+			stack = stack[:len(stack)-1]
+			for _, x := range b.Preds {
+				if !canReach[x.Index] {
+					canReach[x.Index] = true
+					stack = append(stack, x)
+				}
+			}
+		}
+	}
 	memOut := make([]map[*ssa.Alloc]lat, len(f.Blocks))
 	tracked := map[*ssa.Alloc]bool{}
 	for _, b := range f.Blocks {
@@ -849,6 +883,9 @@ func (e *gEngine) analyse(f *ssa.Function, args []lat, depth int) *fnAnalysis {
 		}
 		if !terminated {
 			for _, s := range outs {
+				if canReach != nil && !canReach[s] && !fromSite[bi] {
+					continue
+				}
 				ed := edge{bi, s}
 				if !execEdge[ed] {
 					execEdge[ed] = true
